@@ -2,9 +2,11 @@
 # usage: try_seed.sh <seed-dir-name> <property> [tier]
 # Applies /verif/seeded/<seed>/patch.diff to /repo, runs the property's check, reverts.
 S=/verif/seeded/$1/patch.diff
+# a seed whose patch no longer applies to HEAD may carry a re-based variant
+[ -f /verif/seeded/$1/patch_head.diff ] && S=/verif/seeded/$1/patch_head.diff
 if ! git -C /repo diff --quiet; then echo "repo dirty, refusing"; exit 3; fi
 if ! git -C /repo apply "$S" 2>/dev/null; then
-  if ! git -C /repo apply -3 "$S" 2>/dev/null; then echo "SEED $1 does not apply"; git -C /repo checkout -- . ; git -C /repo reset -q; exit 4; fi
+  if ! git -C /repo apply -3 "$S" 2>/dev/null; then echo "SEED $1 does not apply"; git -C /repo reset -q --hard HEAD; exit 4; fi
   git -C /repo reset -q
 fi
 cd /verif && ./check $2 --tier ${3:-quick} > /tmp/try_seed_$1_$2.out 2>&1; rc=$?
